@@ -1,6 +1,7 @@
 //! C11 — gauge operations are atomic (scheduler + linearizability).
 
-use prometheus::{Gauge, IntGauge};
+use prometheus::core::Collector;
+use prometheus::{Gauge, GaugeVec, IntGauge, IntGaugeVec, Opts};
 
 use crate::engine::{fail, Budget, Property, Report, Tier, Verdict};
 use crate::sched::{run, ExecVerdict, OpFn};
@@ -18,25 +19,53 @@ pub enum GOp {
     Add(f64),
     Sub(f64),
     Get,
+    /// read through Collector::collect of the gauge (or of the vector it is a child of)
+    Collect,
 }
 
+/// Float flavour: f64 bits, IEEE arithmetic in the order of the linearization. Integer flavour: i64 bits,
+/// two's-complement wrapping arithmetic (what `fetch_add` / `fetch_sub` do); arguments are the generated f64
+/// converted with `as i64`, exactly as the executor converts them.
 #[derive(Clone, PartialEq, Eq, Hash)]
-struct GModel(u64); // f64 bits (int gauges use exactly representable values)
+struct GModel(u64, bool);
+
+fn fbits(v: f64) -> u64 {
+    if v.is_nan() {
+        f64::NAN.to_bits()
+    } else {
+        (v + 0.0).to_bits()
+    }
+}
 
 impl Model for GModel {
     type Op = GOp;
     type Res = Option<u64>;
     fn apply(&mut self, op: &GOp) -> Option<u64> {
-        let v = f64::from_bits(self.0);
-        let n = match op {
-            GOp::Set(x) => *x,
-            GOp::Inc => v + 1.0,
-            GOp::Dec => v - 1.0,
-            GOp::Add(x) => v + *x,
-            GOp::Sub(x) => v - *x,
-            GOp::Get => return Some((v + 0.0).to_bits()),
-        };
-        self.0 = (n + 0.0).to_bits();
+        if self.1 {
+            let v = f64::from_bits(self.0);
+            let n = match op {
+                GOp::Set(x) => *x,
+                GOp::Inc => v + 1.0,
+                GOp::Dec => v - 1.0,
+                GOp::Add(x) => v + *x,
+                GOp::Sub(x) => v - *x,
+                GOp::Get | GOp::Collect => return Some(fbits(v)),
+            };
+            self.0 = fbits(n);
+        } else {
+            let v = self.0 as i64;
+            let n = match op {
+                GOp::Set(x) => *x as i64,
+                GOp::Inc => v.wrapping_add(1),
+                GOp::Dec => v.wrapping_sub(1),
+                GOp::Add(x) => v.wrapping_add(*x as i64),
+                GOp::Sub(x) => v.wrapping_sub(*x as i64),
+                GOp::Get => return Some(v as u64),
+                // the exposition carries an integer gauge as f64
+                GOp::Collect => return Some(fbits(v as f64)),
+            };
+            self.0 = n as u64;
+        }
         None
     }
 }
@@ -47,21 +76,39 @@ enum G {
     I(IntGauge),
 }
 
+#[derive(Clone)]
+struct Sys {
+    g: G,
+    coll: std::sync::Arc<dyn Collector>,
+}
+
+impl Sys {
+    fn exec(&self, op: GOp) -> Option<u64> {
+        if op == GOp::Collect {
+            let fams = self.coll.collect();
+            let m = &fams[0].get_metric()[0];
+            return Some(fbits(m.get_gauge().value()));
+        }
+        self.g.exec(op)
+    }
+}
+
 impl G {
     fn exec(&self, op: GOp) -> Option<u64> {
         match (self, op) {
+            (_, GOp::Collect) => unreachable!(),
             (G::F(g), GOp::Set(x)) => g.set(x),
             (G::F(g), GOp::Inc) => g.inc(),
             (G::F(g), GOp::Dec) => g.dec(),
             (G::F(g), GOp::Add(x)) => g.add(x),
             (G::F(g), GOp::Sub(x)) => g.sub(x),
-            (G::F(g), GOp::Get) => return Some((g.get() + 0.0).to_bits()),
+            (G::F(g), GOp::Get) => return Some(fbits(g.get())),
             (G::I(g), GOp::Set(x)) => g.set(x as i64),
             (G::I(g), GOp::Inc) => g.inc(),
             (G::I(g), GOp::Dec) => g.dec(),
             (G::I(g), GOp::Add(x)) => g.add(x as i64),
             (G::I(g), GOp::Sub(x)) => g.sub(x as i64),
-            (G::I(g), GOp::Get) => return Some((g.get() as f64 + 0.0).to_bits()),
+            (G::I(g), GOp::Get) => return Some(g.get() as u64),
         }
         None
     }
@@ -72,8 +119,10 @@ impl Property for C11 {
         "C11"
     }
     fn rule(&self) -> &'static str {
-        "case = one shared Gauge or IntGauge, 2-3 threads x 1-5 operations from set/inc/dec/add/sub/get with small integer or dyadic \
-         arguments, and a schedule (random walk, PCT with 1-3 priority change points, or a window that pauses one thread before its \
+        "case = one shared Gauge or IntGauge (standalone or a GaugeVec/IntGaugeVec child), 2-3 threads x 1-5 operations from \
+         set/inc/dec/add/sub/get/Collector::collect with small integer or dyadic arguments (25% of programs: also negative, 2^40, \
+         1e300, f64::MAX, +Inf, i64 extremes - IEEE resp. wrapping arithmetic in the model; 7% of programs: the gauge starts at \
+         -0.0 and arguments are +-0.0 / 1 / 0.5), and a schedule (random walk, PCT with 1-3 priority change points, or a window that pauses one thread before its \
          k-th atomic step while another completes whole operations) with up to 3 injected spurious compare-exchange failures; the \
          real library code runs one atomic step at a time in that order. Oracle: exhaustive linearizability search against the \
          sequential gauge model; on set-free programs the final value equals the signed sum. Non-trivial: a thread was pre-empted \
@@ -98,20 +147,60 @@ impl Property for C11 {
 
     fn run(&self, src: &mut Src, rep: &mut Report) -> Verdict {
         let float = src.chance(160);
-        let g = if float { G::F(Gauge::new("g", "h").unwrap()) } else { G::I(IntGauge::new("g", "h").unwrap()) };
+        let via_vec = src.chance(64);
+        let sys = match (float, via_vec) {
+            (true, false) => {
+                let g = Gauge::new("g", "h").unwrap();
+                Sys { g: G::F(g.clone()), coll: std::sync::Arc::new(g) }
+            }
+            (false, false) => {
+                let g = IntGauge::new("g", "h").unwrap();
+                Sys { g: G::I(g.clone()), coll: std::sync::Arc::new(g) }
+            }
+            (true, true) => {
+                let v = GaugeVec::new(Opts::new("g", "h"), &["l"]).unwrap();
+                Sys { g: G::F(v.with_label_values(&["x"])), coll: std::sync::Arc::new(v) }
+            }
+            (false, true) => {
+                let v = IntGaugeVec::new(Opts::new("g", "h"), &["l"]).unwrap();
+                Sys { g: G::I(v.with_label_values(&["x"])), coll: std::sync::Arc::new(v) }
+            }
+        };
+        // 25% of programs draw arguments from a wide pool (negative, large, extreme): the signed-sum shortcut is skipped
+        // there (rounding / wrapping), the linearizability search applies the same arithmetic as the library
+        let wide = src.chance(64);
+        // 12% of float programs play with the sign of zero: the gauge starts at -0.0 (set before the threads start) and
+        // arguments come from {-0.0, 0.0, 1.0, 0.5}; -0.0 and 0.0 are the same value for the oracle
+        let zero_sign = float && !wide && src.chance(30);
+        if zero_sign {
+            sys.g.exec(GOp::Set(-0.0));
+        }
         let nthreads = 2 + src.below(2);
         let mut prog: Vec<Vec<GOp>> = vec![];
         for _ in 0..nthreads {
             let n = 1 + src.below(5);
             let mut ops = vec![];
             for _ in 0..n {
-                let v = if float { src.below(17) as f64 / 4.0 } else { src.below(9) as f64 };
-                ops.push(match src.below(8) {
+                let mut v = if float { src.below(17) as f64 / 4.0 } else { src.below(9) as f64 };
+                if wide {
+                    const FW: &[f64] = &[-1.5, -0.25, 1099511627776.0, -1099511627775.75, 1e300, -1e300, 9007199254740993.0, 0.1, f64::MAX, -0.0, f64::INFINITY];
+                    const IW: &[f64] = &[-1.0, -7.0, 1099511627776.0, -1099511627777.0, 9223372036854775807.0, -9223372036854775808.0, 4611686018427387904.0];
+                    let pool = if float { FW } else { IW };
+                    let k = src.below(pool.len() + 4);
+                    if k < pool.len() {
+                        v = pool[pool.len() - 1 - k];
+                    }
+                }
+                if zero_sign {
+                    v = [1.0, 0.0, -0.0, 0.5][src.below(4)];
+                }
+                ops.push(match src.below(9) {
                     0 | 1 => GOp::Add(v),
                     2 => GOp::Sub(v),
                     3 => GOp::Inc,
                     4 => GOp::Dec,
                     5 => GOp::Set(v),
+                    8 => GOp::Collect,
                     _ => GOp::Get,
                 });
             }
@@ -123,7 +212,7 @@ impl Property for C11 {
             .map(|ops| {
                 ops.iter()
                     .map(|op| {
-                        let g = g.clone();
+                        let g = sys.clone();
                         let op = *op;
                         Box::new(move || g.exec(op)) as OpFn<Option<u64>>
                     })
@@ -147,22 +236,23 @@ impl Property for C11 {
             .map(|o| HOp { op: prog[o.thread][o.idx], res: o.result.unwrap(), invoke: o.invoke, response: o.response.unwrap() })
             .collect();
         // the final read by the main thread, after everything
-        let fin = g.exec(GOp::Get);
+        let fin = sys.exec(GOp::Get);
         let last = exec.trace.len() + 1;
         hist.push(HOp { op: GOp::Get, res: fin, invoke: last, response: last + 1 });
+        hist.push(HOp { op: GOp::Collect, res: sys.exec(GOp::Collect), invoke: last + 2, response: last + 3 });
         let describe = || {
             let h: Vec<String> = hist
                 .iter()
                 .enumerate()
-                .map(|(i, h)| format!("#{} {:?} -> {:?} [{},{}]", i, h.op, h.res.map(f64::from_bits), h.invoke, h.response))
+                .map(|(i, h)| format!("#{} {:?} -> {:?} [{},{}]", i, h.op, h.res.map(|b| if float || h.op == GOp::Collect { format!("{:?}", f64::from_bits(b)) } else { format!("{}", b as i64) }), h.invoke, h.response))
                 .collect();
-            format!("{} gauge, program {:?}, history {}", if float { "float" } else { "int" }, prog, h.join("; "))
+            format!("{} gauge{}, program {:?}, history {}", if float { "float" } else { "int" }, if via_vec { " (vector child)" } else { "" }, prog, h.join("; "))
         };
-        if linearize(&GModel(0f64.to_bits()), &hist).is_none() {
+        if linearize(&GModel(if float { 0f64.to_bits() } else { 0 }, float), &hist).is_none() {
             return fail("not-linearizable", describe());
         }
         let set_free = prog.iter().all(|p| p.iter().all(|o| !matches!(o, GOp::Set(_))));
-        if set_free {
+        if set_free && !wide {
             let mut sum = 0.0;
             for p in &prog {
                 for o in p {
@@ -175,13 +265,23 @@ impl Property for C11 {
                     }
                 }
             }
-            if fin != Some((sum + 0.0).to_bits()) {
-                return fail("final-value-not-signed-sum", format!("final {:?} expected {} ;; {}", fin.map(f64::from_bits), sum, describe()));
+            let want = if float { fbits(sum) } else { sum as i64 as u64 };
+            if fin != Some(want) {
+                return fail("final-value-not-signed-sum", format!("final {:?} expected {} ;; {}", fin, sum, describe()));
             }
         }
         let writers = prog.iter().filter(|p| p.iter().any(|o| !matches!(o, GOp::Get))).count();
         rep.nontrivial = exec.preempt_inside_op > 0 && writers >= 2;
         rep.class(if float { "float-gauge" } else { "int-gauge" });
+        if via_vec {
+            rep.class("vector-child");
+        }
+        if wide {
+            rep.class("wide-argument-pool(negative/large/extreme)");
+        }
+        if zero_sign {
+            rep.class("zero-sign-play(starts at -0.0)");
+        }
         if exec.spurious_injected > 0 {
             rep.class("spurious-cas-failure-injected");
         }
